@@ -5,7 +5,7 @@ import std
 SPEC = {
     'prop_files': ['theories/Properties/C09.v', 'theories/Properties/C09_doc.v'],
     'coq_targets': ['theories/Properties/C09.vo', 'theories/Properties/C09_doc.vo', 'theories/C09/Corr.vo'],
-    'closure_dirs': ['theories/C09', 'theories/Gen/Consts.v', 'theories/Base/Outcome.v', 'theories/Wire/Item.v', 'theories/Wire/Json.v', 'theories/Wire/JsonRT.v', 'theories/Wire/JsonLeaf.v', 'theories/Wire/JsonDoc.v', 'theories/Wire/JsonDocProofs.v'],
+    'closure_dirs': ['theories/C09', 'theories/Gen/Consts.v', 'theories/Base/Outcome.v', 'theories/Wire/Item.v', 'theories/Wire/Json.v', 'theories/Wire/JsonRT.v', 'theories/Wire/JsonLeaf.v', 'theories/Wire/JsonDoc.v', 'theories/Wire/JsonDocProofs.v', 'theories/Wire/JsonProofs.v', 'theories/Wire/JsonTotal.v', 'theories/Wire/JsonAccept.v'],
     'harness': 'c09',
     'args': {
         'quick': ['-num', 700, '-raw', 250, '-fast', 250, '-str', 800, '-enc', 250, '-doc', 300, '-refuse', 300, '-keys', 150],
@@ -31,6 +31,6 @@ def main(chk):
 MANIFEST = {
     'category': 'proof',
     'technique': 'Coq proofs (structural induction over the grammar of number / string literals of any length) on executable models of readFloat, the exact float fast path, the string unescaper, quoteStr and jsonEncodeUint, against a Gallina reference written from RFC 8259 / RFC 3629 / IEEE 754; vm_compute correspondence of models AND reference against the real code, strconv and encoding/json; direct oracles on the real Decoder/Encoder',
-    'text': 'Theorems (all closed under the global context, no axioms): C09_readfloat (readFloat on ANY literal of the number grammar, any length, for fi32/fi64/fi64u: never bad, sign kept, ok => mantissa*10^exp is the exact value, else trunc/hardexp flagged), C09_num_fast (under readFloat\'s ok-guard the float64 and float32 fast paths either decline or return the bits of the correctly rounded mantissa*10^exp), C09_num (parseFloat64/32 on any literal = correctly rounded value, or exactly strconv\'s answer), C09_rn_ratio (the rounding reference depends only on the value), C09_unescape (string decoder = reference, consuming exactly the literal, for every literal outside the test-pinned class F09-2r; C09_unescape_refuted gives the witness), C09_quote / C09_quote_fn / C09_quote_selfread (quoteStr writes a literal of the grammar denoting utf8_sanitise s, both HTMLCharsAsIs settings, and the decoder reads it back), C09_uint / C09_uint_decorated (jsonEncodeUint writes the decimal digits of every u < 2^64, no leading zero; parseUint64_simple reads them back), C09_number_literal (jsonIsNumberLiteral, the F09-4 guard on quoted map keys under MapKeyAsString, accepts exactly the texts of the number grammar). Harness: raw bytes through readFloat/parseUint64_simple/parseFloat64,32 (bad => refused); tokens outside the grammar that are refused today must stay refused (bare, array, map value, float-keyed map key; float64/float32/interface{}; bytes/io); map[interface{}]interface{} with number-like non-number string keys and real numbers under MapKeyAsString both directions; grammar-generated literals with 0-300 zero runs, 40 significant digits, exponents +-400 and boundary mantissas through the real Decoder (bytes/io, float64/float32/interface{}) vs strconv; every (hi|lo) x 6^3 surrogate arrangement vs encoding/json; encode side and whole documents under option vectors vs json.Valid/Unmarshal/Marshal; models AND the reference evaluated in Coq on the same cases.',
-    'note': 'Trusted: Coq kernel, hand-written models (correspondence-checked), Spec.rn as the definition of IEEE rounding (compared with strconv on every literal), strconv/encoding/json as oracles, Gen/Consts.v translator. C09_doc (whole documents: containers, whitespace, Indent, MapKeyAsString, TermWhitespace) is covered by the doc stream oracle only, not by a theorem; the executable reference reader Spec.unescape is tied to the relational grammar by C09_unescape_std (parse . render = id). Known finding F09-2-residual: a surrogate escape immediately followed by a non-pairing \\u escape yields one U+FFFD (pinned by the upstream test suite).',
+    'text': 'Theorems (all closed under the global context, no axioms): C09_readfloat (readFloat on ANY literal of the number grammar, any length, for fi32/fi64/fi64u: never bad, sign kept, ok => mantissa*10^exp is the exact value, else trunc/hardexp flagged), C09_num_fast (under readFloat\'s ok-guard the float64 and float32 fast paths either decline or return the bits of the correctly rounded mantissa*10^exp), C09_num (parseFloat64/32 on any literal = correctly rounded value, or exactly strconv\'s answer), C09_rn_ratio (the rounding reference depends only on the value), C09_unescape (string decoder = reference, consuming exactly the literal, for every literal outside the test-pinned class F09-2r; C09_unescape_refuted gives the witness), C09_quote / C09_quote_fn / C09_quote_selfread (quoteStr writes a literal of the grammar denoting utf8_sanitise s, both HTMLCharsAsIs settings, and the decoder reads it back), C09_uint / C09_uint_decorated (jsonEncodeUint writes the decimal digits of every u < 2^64, no leading zero; parseUint64_simple reads them back), C09_number_literal (jsonIsNumberLiteral, the F09-4 guard on quoted map keys under MapKeyAsString, accepts exactly the texts of the number grammar). Harness: raw bytes through readFloat/parseUint64_simple/parseFloat64,32 (bad => refused); tokens outside the grammar that are refused today must stay refused (bare, array, map value, float-keyed map key; float64/float32/interface{}; bytes/io); map[interface{}]interface{} with number-like non-number string keys and real numbers under MapKeyAsString both directions; grammar-generated literals with 0-300 zero runs, 40 significant digits, exponents +-400 and boundary mantissas through the real Decoder (bytes/io, float64/float32/interface{}) vs strconv; every (hi|lo) x 6^3 surrogate arrangement vs encoding/json; encode side and whole documents under option vectors vs json.Valid/Unmarshal/Marshal; models AND the reference evaluated in Coq on the same cases. Document level, reading direction (Properties/C09_doc.v over Wire/JsonAccept.v): C09_doc_decodes (for EVERY text the RFC 8259 reference parser accepts -- any white space between tokens, any nesting, any number / string literal -- every option vector and fuel: Decode(&interface{}) of the wire model returns exactly jdec of the reference parse: the item denoting the same data or the first error met reading left to right (EDepth from MaxDepth on, the number reader\'s refusal, a repeated member name = not modelled); guard: no string literal in the class F09-2r), C09_doc_accepts (valid_json + nesting below MaxDepth + numbers readable + member names distinct => Ok jitem, trailing white space unread), C09_doc_accepts_refuted (the unguarded statement fails on the document "\\ud800\\u0041"), C09_doc_decodes_value (a value anywhere in a text from any tokenizer state), C09_doc_number_kind (uint64 / int64 / float64 by literal shape, PreferFloat, SignedInteger). Tie for these: the hand stream of harness/cmd/wirejson (check Wjson): grammar-written documents through the real Decoder vs the model and vs a direct oracle.',
+    'note': 'Trusted: Coq kernel, hand-written models (correspondence-checked), Spec.rn as the definition of IEEE rounding (compared with strconv on every literal), strconv/encoding/json as oracles, Gen/Consts.v translator. whole documents: the WRITING direction is C09_doc_valid / C09_doc_parse, the READING direction C09_doc_decodes / C09_doc_accepts, both over the structure model Wire/Json.v (tied to the code by check Wjson) with the C09 string / integer models as leaves and strconv as oracle; not proved: integer literals >= 2^64 take the float path (harness), repeated member names (not modelled); the executable reference reader Spec.unescape is tied to the relational grammar by C09_unescape_std (parse . render = id). Known finding F09-2-residual: a surrogate escape immediately followed by a non-pairing \\u escape yields one U+FFFD (pinned by the upstream test suite).',
 }
